@@ -2,7 +2,7 @@
     stay intact.  Statements only; proofs in Proofs/C18_parser.v. *)
 From InvokeVerif Require Import Corr.C18Corr Proofs.C07_fuel Proofs.C18_parser.
 From InvokeVerif Require Import Spec.C01Spec Proofs.C01_steps Proofs.C01_occ Proofs.C01_roundtrip
-     Proofs.C01_final Proofs.C18_placement.
+     Proofs.C01_final Proofs.C18_placement Proofs.C18_program.
 
 (** Remainder (full): everything after the first bare "--" is the remainder,
     verbatim; and the parse of the rest is a function of the tokens before it. *)
@@ -152,6 +152,56 @@ Theorem C18_core_flag_inside_task_partial :
         map obs_of_ctx (tl (pr_ctxs res)) = expected cs inv /\
         pr_unparsed res = [] /\ pr_remainder res = "".
 Proof. exact core_flag_placed. Qed.
+
+(** The same through BOTH passes of Program (parse_core_args with
+    ignore_unknown, parse_tasks with the core context as initial context,
+    _update_core_context): the flagship placement statement for this fragment.
+    [prog_obs] observes Program.args values, the task calls, core.unparsed and
+    core.remainder.  Whether the boolean core option is written before the first
+    task (consumed by the core pass) or after any complete item of any call
+    (handed to the task pass, recognised there, copied back), the core values
+    and the task calls are the same. *)
+Theorem C18_program_placement_equiv_partial :
+  forall (cs : list ctxspec) (ic : ctxspec) (tok : string) (i : nat) (r : rarg),
+    clean_flag tok = true ->
+    find_flag (rc_args (init_ctx ic)) tok = Some i ->
+    nth_error (rc_args (init_ctx ic)) i = Some r ->
+    a_kind (r_spec r) = KBool -> a_incrementable (r_spec r) = false ->
+    String.eqb (arg_name (r_spec r)) "help" = false ->
+    forall calls1 t asn items1 items2 calls2 c,
+      let inv := calls1 ++ mkCall t asn (items1 ++ items2) :: calls2 in
+      simple_guard cs ic inv = true ->
+      nth_error cs t = Some c ->
+      find_flag_spec (cx_args c) tok = None ->
+      find (is_inverse_of tok) (cx_args c) = None ->
+      is_ctx_name cs tok = false ->
+      exists gf gp,
+        prog_obs ic cs (tok :: spell cs inv) = Ok gf /\
+        prog_obs ic cs (spell cs calls1 ++ (asn :: flat_map (spell_item c) items1)
+                        ++ tok :: flat_map (spell_item c) items2 ++ spell cs calls2) = Ok gp /\
+        g_core gf = g_core gp /\ g_tasks gf = g_tasks gp /\ g_tasks gp = expected cs inv /\
+        g_remainder gf = g_remainder gp.
+Proof. exact program_placement_equiv. Qed.
+
+(** ... the core pass hands a command line that starts with a task name to the
+    task pass untouched ([C18_core_prefix] for the empty prefix) ... *)
+Theorem C18_core_pass_consumes_nothing_partial : forall ic t rest,
+  has_missing (init_ctx ic) = false -> starts_with "-" t = false ->
+  Forall (fun x => x <> "--") (t :: rest) ->
+  parser_parse [] (Some ic) true (t :: rest) = Ok (mkRes [init_ctx ic] (t :: rest) "").
+Proof. exact core_pass_plain. Qed.
+
+(** ... and consumes exactly a leading boolean core flag. *)
+Theorem C18_core_pass_consumes_flag_partial : forall ic tok i r t rest,
+  has_missing (init_ctx ic) = false ->
+  clean_flag tok = true ->
+  find_flag (rc_args (init_ctx ic)) tok = Some i -> nth_error (rc_args (init_ctx ic)) i = Some r ->
+  a_kind (r_spec r) = KBool -> a_incrementable (r_spec r) = false ->
+  starts_with "-" t = false ->
+  Forall (fun x => x <> "--") (t :: rest) ->
+  parser_parse [] (Some ic) true (tok :: t :: rest)
+  = Ok (mkRes [set_core (init_ctx ic) i r] (t :: rest) "").
+Proof. exact core_pass_flag. Qed.
 
 (** Non-vacuity: "-e" (echo) of the real core context, placed in the middle of
     the second call of a three-call chain. *)
